@@ -209,3 +209,14 @@ Proof.
   intros ok ops em m Hr. unfold build. apply (walk_all H srt xdisjoint).
   intros q d g Eq Hg. apply (finish_xdisjoint srt ok); [exact Hg|]. exact (run_xdisjoint _ _ _ Hr Eq).
 Qed.
+
+(* a Directory message in canonical form: every kind strictly sorted by name, and no name in two kinds *)
+Definition fully_canonical (m : dirmsg) : Prop := canonical m /\ xdisjoint m.
+
+Theorem build_fully_canonical (H : dirmsg -> str) (srt : sorter) : sorter_ok srt ->
+  forall ops em m, realizable ops -> build H srt ops = Some (em, m) -> Forall fully_canonical em /\ fully_canonical m.
+Proof.
+  intros ok ops em m Hr Hb.
+  destruct (build_canonical H srt ok ops em m Hb) as [C1 C2]. destruct (build_disjoint H srt ok ops em m Hr Hb) as [D1 D2].
+  split; [|split; assumption]. unfold fully_canonical. apply Forall_and; assumption.
+Qed.
